@@ -52,6 +52,23 @@ def live_oracle(prop, scenarios, rounds_quick=300, rounds_thorough=3000):
     return run
 
 
+def flavour_oracle(tier, seed, tracegen, sh):
+    """sync vs async differential on three executors (implementation-vs-implementation test)"""
+    scripts = 12 if tier == "quick" else 90
+    gen = ["flavour", "--seed", str(seed), "--ops", "60" if tier == "quick" else "120", "--scripts", str(scripts)]
+    rc, out = sh([tracegen] + gen, timeout=1200)
+    m = re.search(r"flavour scripts=(\d+) steps=(\d+) mismatches=(\d+) seed_mismatch=(\d+) detail=(\S+)", out)
+    failures = []
+    if not m:
+        failures.append(f"MONITOR-FAIL property=C19 flavour differential produced no result (rc={rc}): {out[-200:]}")
+        return {"report": {"rows": []}, "failures": failures, "gen": gen}
+    if int(m[3]) > 0:
+        failures.append(f"MONITOR-FAIL property=C19 {m[5].replace('_', ' ')[:1500]} [tracegen {' '.join(gen)}]")
+    return {"report": {"kind": "differential test Cache vs AsyncCache on thread-per-task, tokio multi-thread and tokio current-thread executors (not a proof)",
+                       "rows": [{"scripts": int(m[1]), "steps": int(m[2]), "mismatches": int(m[3]), "scripts_skipped_for_seed_mismatch": int(m[4])}]},
+            "failures": failures, "gen": gen}
+
+
 def policy_job(fields):
     return {"name": "policy", "driver": "policy", "fields": fields,
             "gen": lambda tier, seed: ["policy", "--seed", str(seed), "--ops", "300" if tier == "quick" else "1500",
@@ -104,9 +121,20 @@ PROPS = {
     "C08": {"module": None, "jobs": [cache_job(r"\.(store|callbacks|buffer|ret)$", extra=["--collisions", "1"]), cache_job(r"\.(store|callbacks|buffer|ret)$", name="cache-plain", extra=["--w-clear", "5"])], "assumptions": CACHE_ASSUME},
     "C10": {"module": "StrettoModel.Props.C10", "jobs": [cache_job(r"\.(buffer|ret|wait|clear|close|closed)$", extra=["--w-wait", "10", "--w-close", "3", "--w-clear", "5"])],
             "oracles": [{"name": "live-barrier", "run": live_oracle("C10", ["barrier", "protocol_storm"])}], "assumptions": CACHE_ASSUME},
-    "C15": {"module": None, "jobs": [cache_job(r"\.(ring|metrics|ret|batch)$")], "assumptions": CACHE_ASSUME},
+    "C15": {"module": "StrettoModel.Props.C15", "jobs": [cache_job(r"\.(ring|metrics|ret|batch)$")],
+            "branches": ["ring.flush.kept", "ring.flush.dropped_or_closed", "w.items", "get.hit", "get.miss", "getmut.hit"],
+            "assumptions": CACHE_ASSUME + ["what the policy worker does with a kept batch is TinyLFU.increments, the subject of C13; the stepped harness parks the worker so the bounded queue does fill up"]},
+    "C19": {"module": "StrettoModel.Props.C19", "jobs": [cache_job(r".*", quick_lives=8)],
+            "oracles": [{"name": "flavour-differential", "run": flavour_oracle}],
+            "assumptions": CACHE_ASSUME + ["AsyncCache is tied to the model only through Cache: the same scripted histories (quiescence after every operation, virtual clock, equal sketch seeds) are run against both and every observable compared; executors sampled: thread-per-task, tokio multi-thread, tokio current-thread",
+                                           "the gets_kept / gets_dropped split and the queue length legitimately differ (bounded 3 vs unbounded) and are masked; their sum is compared"]},
     "C17": {"module": None, "jobs": [cache_job(r"\.(metrics|life|policy|ret)$", extra=["--w-clear", "4"]), policy_job(r"^pol\..*(metrics|state)$")], "assumptions": CACHE_ASSUME},
-    "C18": {"module": None, "jobs": [cache_job(r"\.(store|ret|callbacks)$", extra=["--collisions", "1"])], "assumptions": CACHE_ASSUME},
+    "C18": {"module": "StrettoModel.Props.C18",
+            "jobs": [cache_job(r"\.(store|ret|callbacks)$", extra=["--collisions", "1"], quick_lives=14),
+                     {"name": "keys", "driver": "keys", "gen": lambda tier, seed: ["keys", "--seed", str(seed), "--ops", "300" if tier == "quick" else "5000"],
+                      "seeds": {"quick": 1, "thorough": 4}}],
+            "branches": ["key.i8.neg", "key.i16.neg", "key.i64.neg", "key.u64.nonneg", "keystr", "delete.other_conflict", "get.conflict_miss", "iip.vetoed_or_conflict"],
+            "assumptions": CACHE_ASSUME + ["seahash/xxh64 and std's Hash for String/&str are not modelled: determinism and String/&str agreement are sampled by the harness"]},
     "C20": {"module": "StrettoModel.Props.C20",
             "jobs": [cache_job(r".*", name="config-sweep", extra=["--sweep", "1"], quick_ops=60, quick_lives=70, thorough_ops=150, thorough_lives=140, seeds={"quick": 1, "thorough": 8}),
                      cache_job(r".*", quick_lives=10)],
